@@ -1,5 +1,6 @@
 import Rg.Model.Comment
 import Rg.Proofs.Regex
+import Rg.Proofs.CommentSpan
 /-! Helper lemmas about the comment-rule model. -/
 namespace CM
 open Rx
@@ -17,68 +18,109 @@ theorem filePos_in (size : Nat) (x : Int) (h0 : 0 ≤ x) (h1 : x ≤ size) : fil
   unfold filePos
   rw [if_neg (by omega), if_neg (by omega)]
 
-/-- in-range indices: the node is the span `[off+lo, off+hi)` carrying `text[lo:hi]` -/
-theorem mkNode_ok (size off : Nat) (text : Bytes) (lo hi : Int) (h0 : 0 ≤ lo) (h1 : lo ≤ hi) (h2 : hi ≤ text.length)
-    (hfit : off + text.length ≤ size) :
-    mkNode size off text lo hi = .ok ⟨off + lo.toNat, slice text lo.toNat hi.toNat⟩ := by
-  unfold mkNode
-  rw [goSlice_ok text lo hi h0 h1 h2]
-  simp only [Res.bind]
-  rw [filePos_in size (lo + off) (by omega) (by omega)]
-  congr 2
-  omega
-
 theorem slice_length (b : Bytes) (lo hi : Nat) (h1 : lo ≤ hi) (h2 : hi ≤ b.length) : (slice b lo hi).length = hi - lo := by
   simp [slice]; omega
 
-/-- a sub-slice of a slice is a slice of the whole -/
-theorem slice_slice (src : Bytes) (off n lo hi : Nat) (h1 : lo ≤ hi) (h2 : hi ≤ n) :
-    slice (slice src off (off + n)) lo hi = slice src (off + lo) (off + hi) := by
-  unfold slice
-  rw [List.drop_take, List.take_take, List.drop_drop]
-  congr 1
+/-- the comment's `Text` is literally the bytes of the file at the comment's offset (false for a comment from
+which go/scanner stripped carriage returns) -/
+def NoCR (src : Bytes) (off : Nat) (text : Bytes) : Prop := slice src off (off + text.length) = text
+
+theorem noCR_drop {src : Bytes} {off : Nat} {text : Bytes} (h : NoCR src off text) :
+    src.drop off = text ++ (src.drop off).drop text.length := by
+  unfold NoCR slice at h
+  have : off + text.length - off = text.length := by omega
+  rw [this] at h
+  have := List.take_append_drop text.length (src.drop off)
+  rw [h] at this
+  exact this.symm
+
+theorem crtext_of_noCR {src : Bytes} {off : Nat} {text : Bytes} (h : NoCR src off text) : CRText src off text := by
+  unfold CRText
+  rw [noCR_drop h]
+  exact (Del.refl text).emb _
+
+/-- how the runner's view of the file (`msrc` = what `fileBytes()` returns) relates to the file `src` and the
+comment in it: the comment text is the file's bytes at `off` up to carriage returns the scanner removed; the
+runner reads that very file — or nothing, and then nothing can have been removed; the comment lies in the file. -/
+structure View (msrc src : Bytes) (size off : Nat) (text : Bytes) : Prop where
+  cr : CRText src off text
+  seen : msrc = src ∨ (msrc = [] ∧ NoCR src off text)
+  fit : off + text.length ≤ size
+  size : src.length ≤ size
+
+/-- the node for `text[lo:hi]`: that text at the span of the file it stands for -/
+def spanNode (src : Bytes) (off : Nat) (text : Bytes) (lo hi : Nat) : Node :=
+  ⟨(SpecC12.fileSpan src off text lo hi).1, slice text lo hi, (SpecC12.fileSpan src off text lo hi).2⟩
+
+theorem fileSpan_zero (src : Bytes) (off : Nat) (text : Bytes) : SpecC12.fileSpan src off text 0 0 = (off, off) := by
+  unfold SpecC12.fileSpan
+  cases SpecC12.origins (src.drop off) text off <;> simp
+
+/-- `commentTextSpan` on what the runner sees gives the span in the file -/
+theorem textSpan_view {msrc src : Bytes} {size off : Nat} {text : Bytes} (vw : View msrc src size off text)
+    (lo hi : Nat) (hle : lo ≤ hi) (hhi : hi ≤ text.length) :
+    textSpan msrc off text lo hi = .ok (SpecC12.fileSpan src off text lo hi) := by
+  obtain ⟨K, hK⟩ := crtext_after vw.cr
+  rw [fileSpan_eq src off text lo hi K hle hhi hK]
+  rcases vw.seen with h | ⟨h, hno⟩
+  · subst h
+    obtain ⟨k, hk, _⟩ := after_mono hK hi hhi
+    exact textSpan_eq msrc off text lo hi k hle hk
+  · subst h
+    rw [textSpan_nosrc off text lo hi hle, noCR_drop hno, spanC_prefix text _ off lo hi hle hhi]
+
+/-- the span lies in the file -/
+theorem fileSpan_le {msrc src : Bytes} {size off : Nat} {text : Bytes} (vw : View msrc src size off text)
+    (lo hi : Nat) (hle : lo ≤ hi) (hhi : hi ≤ text.length) :
+    off ≤ (SpecC12.fileSpan src off text lo hi).1 ∧ (SpecC12.fileSpan src off text lo hi).1 ≤ (SpecC12.fileSpan src off text lo hi).2 ∧
+      (SpecC12.fileSpan src off text lo hi).2 ≤ size := by
+  obtain ⟨K, hK⟩ := crtext_after vw.cr
+  rw [fileSpan_eq src off text lo hi K hle hhi hK]
+  obtain ⟨a, b, he, hab, hb, _, hhb, _⟩ := spanC_spec hK off lo hi hle hhi
+  rw [he]
+  refine ⟨by simp, by simp; omega, ?_⟩
+  have h1 := vw.fit
+  have h2 := vw.size
+  simp only [List.length_drop] at hb
+  simp only
   omega
 
-/-- when the comment's text is literally the file's bytes at its offset, the node's span holds the node's text -/
-theorem span_bytes (src text : Bytes) (off lo hi : Nat) (hsrc : slice src off (off + text.length) = text)
-    (h1 : lo ≤ hi) (h2 : hi ≤ text.length) : slice src (off + lo) (off + hi) = slice text lo hi := by
-  rw [← slice_slice src off text.length lo hi h1 h2, hsrc]
-
-theorem offsetOf_in (size p : Nat) (h : p ≤ size) : offsetOf size p = p := by simp [offsetOf, h]
-
-/-- filters and templates read a node's text either from the file or from the node; both are the node's
-text as soon as the file holds that text at the node's span -/
-theorem nodeText_exact (src : Bytes) (size : Nat) (n : Node) (hend : n.endPos ≤ size)
-    (hbytes : n.endPos < src.length → slice src n.pos n.endPos = n.text) : nodeText src size n = .ok n.text := by
-  unfold nodeText
-  have hpos : n.pos ≤ size := by unfold Node.endPos at hend; omega
-  rw [offsetOf_in size n.pos hpos, offsetOf_in size n.endPos hend]
+/-- in-range indices: the node carries `text[lo:hi]` at the span of the file that piece stands for -/
+theorem mkNode_ok {msrc src : Bytes} {size off : Nat} {text : Bytes} (vw : View msrc src size off text)
+    (lo hi : Int) (h0 : 0 ≤ lo) (h1 : lo ≤ hi) (h2 : hi ≤ text.length) :
+    mkNode msrc size off text lo hi = .ok (spanNode src off text lo.toNat hi.toNat) := by
+  unfold mkNode
+  rw [goSlice_ok text lo hi h0 h1 h2]
+  simp only [Res.bind]
+  rw [textSpan_view vw lo.toNat hi.toNat (by omega) (by omega)]
+  obtain ⟨_, hpe, he⟩ := fileSpan_le vw lo.toNat hi.toNat (by omega) (by omega)
   simp only
-  by_cases hc : n.pos < src.length ∧ n.endPos < src.length
-  · rw [if_pos hc]
-    have hle : n.pos ≤ n.endPos := by unfold Node.endPos; omega
-    rw [goSlice_ok src n.pos n.endPos (by omega) (by omega) (by omega)]
-    simp only [Int.toNat_natCast]
-    rw [hbytes hc.2]
-  · rw [if_neg hc]
+  rw [filePos_in size _ (by omega) (by omega), filePos_in size _ (by omega) (by omega)]
+  rfl
+
+/-- the node of a group that did not participate: empty, at the comment's start -/
+theorem mkNode_zero {msrc src : Bytes} {size off : Nat} {text : Bytes} (vw : View msrc src size off text) :
+    mkNode msrc size off text 0 0 = .ok ⟨off, [], off⟩ := by
+  rw [mkNode_ok vw 0 0 (by omega) (by omega) (by omega)]
+  simp [spanNode, fileSpan_zero, slice]
 
 /-! ## the rule loop -/
 
 /-- a rule that does not report: its regexp does not match, or its filter rejects -/
 def Rejected (alt : Bool) (src : Bytes) (size : Nat) (cfg : Int) (off : Nat) (text : Bytes) (r : CRule) : Prop :=
-  buildMatch size off text r = .ok none ∨
-    ∃ m j, buildMatch size off text r = .ok (some m) ∧ handleCommentMatch alt src size cfg j r m = .ok none
+  buildMatch src size off text r = .ok none ∨
+    ∃ m j, buildMatch src size off text r = .ok (some m) ∧ handleCommentMatch alt cfg j r m = .ok none
 
 theorem runFrom_some (alt : Bool) (src : Bytes) (size : Nat) (cfg : Int) (off : Nat) (text : Bytes) (rules : List CRule)
     (k : Nat) (rep : Report) (h : runFrom alt src size cfg off text k rules = .ok (some rep)) :
-    ∃ pre r post m, rules = pre ++ r :: post ∧ buildMatch size off text r = .ok (some m) ∧
-      handleCommentMatch alt src size cfg (k + pre.length) r m = .ok (some rep) ∧
+    ∃ pre r post m, rules = pre ++ r :: post ∧ buildMatch src size off text r = .ok (some m) ∧
+      handleCommentMatch alt cfg (k + pre.length) r m = .ok (some rep) ∧
       ∀ r', r' ∈ pre → Rejected alt src size cfg off text r' := by
   induction rules generalizing k with
   | nil => simp [runFrom] at h
   | cons r rest ih =>
     unfold runFrom at h
-    cases hb : buildMatch size off text r with
+    cases hb : buildMatch src size off text r with
     | panic p => simp [hb, Res.bind] at h
     | ok om =>
       simp only [hb, Res.bind] at h
@@ -95,7 +137,7 @@ theorem runFrom_some (alt : Bool) (src : Bytes) (size : Nat) (cfg : Int) (off : 
           · exact hrej r' hr'
       | some m =>
         simp only at h
-        cases hh : handleCommentMatch alt src size cfg k r m with
+        cases hh : handleCommentMatch alt cfg k r m with
         | panic p => simp [hh] at h
         | ok orep =>
           simp only [hh] at h
@@ -122,7 +164,7 @@ theorem runFrom_none (alt : Bool) (src : Bytes) (size : Nat) (cfg : Int) (off : 
   | nil => intro r hr; simp at hr
   | cons r rest ih =>
     unfold runFrom at h
-    cases hb : buildMatch size off text r with
+    cases hb : buildMatch src size off text r with
     | panic p => simp [hb, Res.bind] at h
     | ok om =>
       simp only [hb, Res.bind] at h
@@ -135,7 +177,7 @@ theorem runFrom_none (alt : Bool) (src : Bytes) (size : Nat) (cfg : Int) (off : 
         · exact ih (k + 1) h r' hr'
       | some m =>
         simp only at h
-        cases hh : handleCommentMatch alt src size cfg k r m with
+        cases hh : handleCommentMatch alt cfg k r m with
         | panic p => simp [hh] at h
         | ok orep =>
           simp only [hh] at h
@@ -155,9 +197,8 @@ def atomHolds (a : Atom) (t : Bytes) : Bool :=
   match a with | .textEq _ l => t == l | .textNe _ l => !(t == l)
 
 /-- an accepting filter saw, for each of its atoms, the text of the named submatch and found the comparison true -/
-theorem evalFilter_true (src : Bytes) (size : Nat) (m : MatchD) (atoms : List Atom)
-    (h : evalFilter src size m atoms = .ok true) :
-    ∀ a, a ∈ atoms → ∃ n t, capturedByName m (atomVar a) = some n ∧ nodeText src size n = .ok t ∧ atomHolds a t = true := by
+theorem evalFilter_true (m : MatchD) (atoms : List Atom) (h : evalFilter m atoms = .ok true) :
+    ∀ a, a ∈ atoms → ∃ n, capturedByName m (atomVar a) = some n ∧ atomHolds a n.text = true := by
   induction atoms with
   | nil => intro a ha; simp at ha
   | cons a rest ih =>
@@ -169,49 +210,41 @@ theorem evalFilter_true (src : Bytes) (size : Nat) (m : MatchD) (atoms : List At
       | none => simp [hc] at h
       | some n =>
         simp only [hc] at h
-        cases ht : nodeText src size n with
-        | panic p => simp [ht, Res.bind] at h
-        | ok t =>
-          simp only [ht, Res.bind] at h
-          by_cases hcmp : ((t == l) == true) = true
-          · rw [if_pos hcmp] at h
-            intro a' ha'
-            rcases List.mem_cons.1 ha' with rfl | ha'
-            · exact ⟨n, t, hc, ht, by simpa [atomHolds] using hcmp⟩
-            · exact ih h a' ha'
-          · rw [if_neg hcmp] at h; simp at h
+        by_cases hcmp : ((nodeText n == l) == true) = true
+        · rw [if_pos hcmp] at h
+          intro a' ha'
+          rcases List.mem_cons.1 ha' with rfl | ha'
+          · exact ⟨n, hc, by simpa [atomHolds, nodeText] using hcmp⟩
+          · exact ih h a' ha'
+        · rw [if_neg hcmp] at h; simp at h
     | textNe v l =>
       simp only at h
       cases hc : capturedByName m v with
       | none => simp [hc] at h
       | some n =>
         simp only [hc] at h
-        cases ht : nodeText src size n with
-        | panic p => simp [ht, Res.bind] at h
-        | ok t =>
-          simp only [ht, Res.bind] at h
-          by_cases hcmp : ((t == l) == false) = true
-          · rw [if_pos hcmp] at h
-            intro a' ha'
-            rcases List.mem_cons.1 ha' with rfl | ha'
-            · refine ⟨n, t, hc, ht, ?_⟩
-              simp only [atomHolds]
-              cases hb : (t == l) <;> simp [hb] at hcmp ⊢
-            · exact ih h a' ha'
-          · rw [if_neg hcmp] at h; simp at h
+        by_cases hcmp : ((nodeText n == l) == false) = true
+        · rw [if_pos hcmp] at h
+          intro a' ha'
+          rcases List.mem_cons.1 ha' with rfl | ha'
+          · refine ⟨n, hc, ?_⟩
+            simp only [atomHolds, nodeText] at hcmp ⊢
+            cases hb : (n.text == l) <;> simp [hb] at hcmp ⊢
+          · exact ih h a' ha'
+        · rw [if_neg hcmp] at h; simp at h
 
 /-- what a delivered report consists of -/
-theorem handle_some (alt : Bool) (src : Bytes) (size : Nat) (cfg : Int) (k : Nat) (r : CRule) (m : MatchD) (rep : Report)
-    (h : handleCommentMatch alt src size cfg k r m = .ok (some rep)) :
+theorem handle_some (alt : Bool) (cfg : Int) (k : Nat) (r : CRule) (m : MatchD) (rep : Report)
+    (h : handleCommentMatch alt cfg k r m = .ok (some rep)) :
     rep.rule = k ∧ rep.line = (if alt then r.altLine else r.line) ∧
       rep.node = reportNode m r ∧
-      renderMessage src size cfg r.msg m true = .ok rep.msg ∧
+      renderMessage cfg r.msg m true = .ok rep.msg ∧
       (r.suggestion = [] → rep.sugg = none) ∧
-      (r.suggestion ≠ [] → ∃ n repl, rep.node = some n ∧ renderMessage src size cfg r.suggestion m false = .ok repl ∧
+      (r.suggestion ≠ [] → ∃ n repl, rep.node = some n ∧ renderMessage cfg r.suggestion m false = .ok repl ∧
           rep.sugg = some (n.pos, n.endPos, repl)) ∧
-      (∀ atoms, r.filter = some atoms → evalFilter src size m atoms = .ok true) := by
+      (∀ atoms, r.filter = some atoms → evalFilter m atoms = .ok true) := by
   unfold handleCommentMatch at h
-  cases hf : filterResult src size m r with
+  cases hf : filterResult m r with
   | panic p => rw [hf] at h; simp [Res.bind] at h
   | ok okb =>
     rw [hf] at h
@@ -220,13 +253,13 @@ theorem handle_some (alt : Bool) (src : Bytes) (size : Nat) (cfg : Int) (k : Nat
     | false => simp at h
     | true =>
       simp only [Bool.not_true, Bool.false_eq_true, if_false] at h
-      cases hm : renderMessage src size cfg r.msg m true with
+      cases hm : renderMessage cfg r.msg m true with
       | panic p => simp [hm] at h
       | ok message =>
         simp only [hm] at h
-        have hfilter : ∀ atoms, r.filter = some atoms → evalFilter src size m atoms = .ok true := by
+        have hfilter : ∀ atoms, r.filter = some atoms → evalFilter m atoms = .ok true := by
           intro atoms ha; unfold filterResult at hf; rw [ha] at hf; exact hf
-        cases hsg : suggestionOf src size cfg m r with
+        cases hsg : suggestionOf cfg m r with
         | panic p => simp [hsg] at h
         | ok sugg =>
           simp only [hsg, Res.ok.injEq, Option.some.injEq] at h
@@ -240,7 +273,7 @@ theorem handle_some (alt : Bool) (src : Bytes) (size : Nat) (cfg : Int) (k : Nat
           · intro hs
             unfold suggestionOf at hsg
             rw [if_pos hs] at hsg
-            cases hr : renderMessage src size cfg r.suggestion m false with
+            cases hr : renderMessage cfg r.suggestion m false with
             | panic p => simp [hr, Res.bind] at hsg
             | ok repl =>
               simp only [hr, Res.bind] at hsg
@@ -252,8 +285,8 @@ theorem handle_some (alt : Bool) (src : Bytes) (size : Nat) (cfg : Int) (k : Nat
 
 /-! ## the path without submatches -/
 
-theorem capsLoop_unnamed (size off : Nat) (text : Bytes) (v : List Int) (i : Nat) (names : List Bytes)
-    (h : ∀ n, n ∈ names → n = []) : capsLoop size off text v i names = .ok [] := by
+theorem capsLoop_unnamed (src : Bytes) (size off : Nat) (text : Bytes) (v : List Int) (i : Nat) (names : List Bytes)
+    (h : ∀ n, n ∈ names → n = []) : capsLoop src size off text v i names = .ok [] := by
   induction names generalizing i with
   | nil => rfl
   | cons n rest ih =>
@@ -292,37 +325,34 @@ theorem walkRe_eq (re : Re) : ∀ found, walkRe found re = (found || anyCapture 
     · rw [if_neg hop, walkList_eq subs ih]
       simp [hop]
 
-/-- the comment's `Text` is literally the bytes of the file at the comment's offset (go/scanner strips
-carriage returns from comment text, so this fails for multi-line block comments of CRLF files) -/
-def NoCR (src : Bytes) (off : Nat) (text : Bytes) : Prop := slice src off (off + text.length) = text
-
 /-- in-range index pair, as `regexp` returns them -/
 def InRange (text : Bytes) (lo hi : Int) : Prop := 0 ≤ lo ∧ lo ≤ hi ∧ hi ≤ text.length
 
 
-/-- the capture the property prescribes for group `i` called `name`: its submatch text at its span, or the
-empty text at the comment's start when the group did not participate -/
-def groupCap (off : Nat) (text : Bytes) (v : List Int) (i : Nat) (name : Bytes) : Cap :=
+/-- the capture the property prescribes for group `i` called `name`: its submatch text at the span of the file
+it stands for, or the empty text at the comment's start when the group did not participate -/
+def groupCap (src : Bytes) (off : Nat) (text : Bytes) (v : List Int) (i : Nat) (name : Bytes) : Cap :=
   match v[2 * i]?, v[2 * i + 1]? with
   | some b, some e =>
-    if b < 0 ∨ e < 0 then ⟨name, ⟨off, []⟩⟩ else ⟨name, ⟨off + b.toNat, slice text b.toNat e.toNat⟩⟩
-  | _, _ => ⟨name, ⟨off, []⟩⟩
+    if b < 0 ∨ e < 0 then ⟨name, ⟨off, [], off⟩⟩ else ⟨name, spanNode src off text b.toNat e.toNat⟩
+  | _, _ => ⟨name, ⟨off, [], off⟩⟩
 
 /-- one capture per *named* group (index 0 and unnamed groups are skipped), in group order -/
-def namedCaps (off : Nat) (text : Bytes) (v : List Int) : Nat → List Bytes → List Cap
+def namedCaps (src : Bytes) (off : Nat) (text : Bytes) (v : List Int) : Nat → List Bytes → List Cap
   | _, [] => []
   | i, n :: rest =>
-    if i = 0 ∨ n = [] then namedCaps off text v (i + 1) rest
-    else groupCap off text v i n :: namedCaps off text v (i + 1) rest
+    if i = 0 ∨ n = [] then namedCaps src off text v (i + 1) rest
+    else groupCap src off text v i n :: namedCaps src off text v (i + 1) rest
 
 /-- what `FindStringSubmatchIndex` guarantees about group `i` -/
 def WFGroup (text : Bytes) (v : List Int) (i : Nat) : Prop :=
   ∃ b e, v[2 * i]? = some b ∧ v[2 * i + 1]? = some e ∧ (b < 0 ∨ e < 0 ∨ InRange text b e)
 
 
-theorem group_text_core (size off : Nat) (text : Bytes) (v : List Int) (i : Nat) (names : List Bytes)
-    (hwf : ∀ j, i ≤ j → j < i + names.length → WFGroup text v j) (hfit : off + text.length ≤ size) :
-    capsLoop size off text v i names = .ok (namedCaps off text v i names) := by
+theorem group_text_core {msrc src : Bytes} {size off : Nat} {text : Bytes} (vw : View msrc src size off text)
+    (v : List Int) (i : Nat) (names : List Bytes)
+    (hwf : ∀ j, i ≤ j → j < i + names.length → WFGroup text v j) :
+    capsLoop msrc size off text v i names = .ok (namedCaps src off text v i names) := by
   induction names generalizing i with
   | nil => rfl
   | cons n rest ih =>
@@ -334,7 +364,7 @@ theorem group_text_core (size off : Nat) (text : Bytes) (v : List Int) (i : Nat)
       obtain ⟨b, e, hb, he, hcase⟩ := hwf i (Nat.le_refl _) (by simp)
       simp only [hb, he, groupCap]
       by_cases hneg : b < 0 ∨ e < 0
-      · rw [if_pos hneg, if_pos hneg, ihr]; rfl
+      · rw [if_pos hneg, if_pos hneg, mkNode_zero vw, ihr]; rfl
       · rw [if_neg hneg, if_neg hneg]
         have hin : InRange text b e := by
           rcases hcase with h | h | h
@@ -342,11 +372,8 @@ theorem group_text_core (size off : Nat) (text : Bytes) (v : List Int) (i : Nat)
           · exact absurd (.inr h) hneg
           · exact h
         obtain ⟨h0, h1, h2⟩ := hin
-        rw [goSlice_ok text b e h0 h1 h2, ihr]
-        simp only [Res.bind]
-        rw [filePos_in size (b + off) (by omega) (by omega)]
-        congr 4
-        omega
+        rw [mkNode_ok vw b e h0 h1 h2, ihr]
+        rfl
 
 
 end CM
